@@ -1,11 +1,12 @@
 import Driver.Dwarf
 import Driver.Cfi
+import Driver.Adt
 
 /-! One JSON request per input line, one JSON answer per output line. -/
 open Lean Driver
 
 def handlers : List (String → Json → Option (Except String Json)) :=
-  [Driver.Dwarf.handle, Driver.Cfi.handle]
+  [Driver.Dwarf.handle, Driver.Cfi.handle, Driver.Adt.handle]
 
 def dispatch (line : String) : Json :=
   match Json.parse line with
